@@ -814,6 +814,9 @@ impl<'a> Exec<'a> {
                 }
             }
         };
+        if std::env::var_os("C38_TRACE").is_some() {
+            eprintln!("{line}\n  model: {model}\n  impl:  {imp}");
+        }
         // ---- compare
         let model_cmp = if model.starts_with("consent ") {
             // the token's content is compared when it is permitted; here: scopes and pii
@@ -1469,7 +1472,7 @@ fn main() {
             return;
         }
         let mut scenarios: Vec<(String, Json)> = vec![("corpus".into(), corpus())];
-        let n = args.cases(30, 520);
+        let n = args.cases(30, 900);
         for i in 0..n {
             scenarios.push((format!("random{i}"), gen_scenario(args.seed, i, args.budget > 1 && i % 2 == 1)));
         }
